@@ -75,6 +75,8 @@ template <long CAP> static void runStatic(const std::vector<Op>& ops) {
 		else if (o.name == "get") out += " ->" + std::to_string(a[o.args[0]]);
 		else if (o.name == "fill") a.fill(int(o.args[0]));
 		else if (o.name == "clear") a.clear();
+		else if (o.name == "ctorfill") { a.~StaticArrayT(); new (&a) StaticArrayT<int, CAP>{int(o.args[0])}; }      // the filling constructor
+		else if (o.name == "isempty") out += a.empty() ? " ->1" : " ->0";                                           // every item equals the filler value
 		dump(); out += "\n";
 	}
 }
